@@ -13373,3 +13373,82 @@ func extraC19EventSuccessIsFlag(c *Ctx, r *Report) {
 	addMutants(Mutant{Prop: "C19", Name: "passthrough-always-a-success", File: "internal/app/handlers/handler_translation.go", Rule: "C19-R20",
 		Old: "	success := !pr.hadError\n", New: "	success := !pr.hadError || mode == constants.TranslatorModePassthrough\n"})
 }
+
+// ---------- C20-R21 / C10-R25: a map is not written under a read lock ----------
+func init() {
+	registerExtra("C20", func(c *Ctx, r *Report) { extraNoMapWriteUnderRLock(c, r, "C20-R21") })
+	registerExtra("C10", func(c *Ctx, r *Report) { extraNoMapWriteUnderRLock(c, r, "C10-R25") })
+}
+
+func extraNoMapWriteUnderRLock(c *Ctx, r *Report, rule string) {
+	r.Rule(rule, "no method of a repo struct that guards its state with a sync.RWMutex writes one of the struct's plain maps (m[k] = v, m[k]++, delete(m, k)) while holding only the READ lock: RLock admits any number of holders, two of them writing the same map is a data race the runtime answers with 'fatal error: concurrent map writes' — the whole process dies, it cannot be recovered. Discovery counts an endpoint's listing failures in such a map, and one failing listing cancels its siblings, so several workers reach that counter at the same instant", 4)
+	n := 0
+	for _, f := range c.Funcs {
+		if !c.inRepo(f) || f.Blocks == nil || f.Signature.Recv() == nil {
+			continue
+		}
+		nt, ok := deref(f.Signature.Recv().Type()).(*types.Named)
+		if !ok {
+			continue
+		}
+		st, ok := nt.Underlying().(*types.Struct)
+		if !ok {
+			continue
+		}
+		var mutexes []string
+		for i := 0; i < st.NumFields(); i++ {
+			if isNamed(st.Field(i).Type(), "sync", "RWMutex") {
+				mutexes = append(mutexes, st.Field(i).Name())
+			}
+		}
+		if len(mutexes) == 0 {
+			continue
+		}
+		pkgPath := strings.TrimPrefix(nt.Obj().Pkg().Path(), modPath+"/")
+		recv := f.Params[0]
+		ownMap := func(v ssa.Value) bool {
+			ld, ok := v.(*ssa.UnOp)
+			if !ok || ld.Op != token.MUL {
+				return false
+			}
+			fa, ok := ld.X.(*ssa.FieldAddr)
+			return ok && fa.X == ssa.Value(recv)
+		}
+		eachInstr(f, func(in ssa.Instruction) {
+			var m ssa.Value
+			switch x := in.(type) {
+			case *ssa.MapUpdate:
+				m = x.Map
+			case *ssa.Call:
+				if b, ok := x.Call.Value.(*ssa.Builtin); ok && (b.Name() == "delete" || b.Name() == "clear") && len(x.Call.Args) > 0 {
+					m = x.Call.Args[0]
+				}
+			}
+			if m == nil || !ownMap(m) {
+				return
+			}
+			if _, isMap := m.Type().Underlying().(*types.Map); !isMap {
+				return
+			}
+			n++
+			key := fname(f) + ":map-write-lock-mode"
+			bad := false
+			for _, mu := range mutexes {
+				if lockHeld(f, in, pkgPath, nt.Obj().Name(), mu, false) && !lockHeld(f, in, pkgPath, nt.Obj().Name(), mu, true) {
+					bad = true
+				}
+				// deferred RUnlock after RLock: lockHeld ignores defers, so RLock without a dominating explicit RUnlock is held
+			}
+			if bad {
+				r.Bad(rule, key, in.Pos(), "a map of the struct is written while only the read lock is held: concurrent callers all pass RLock and write the map together — the Go runtime aborts the process with 'concurrent map writes' (or updates are lost)")
+			} else {
+				r.OK(rule, key, in.Pos(), "not written under a read lock")
+			}
+		})
+	}
+	if n == 0 {
+		r.Triv(rule, "guarded-map-writes", token.NoPos, "no method of an RWMutex-guarded struct writes a plain map of the struct")
+	}
+	addMutants(Mutant{Prop: rule[:3], Name: "failure-count-incremented-under-rlock", File: "internal/adapter/discovery/service.go", Rule: rule,
+		Old: "func (s *ModelDiscoveryService) incrementFailureCount(endpointURL string) {\n	s.mu.Lock()\n	defer s.mu.Unlock()\n", New: "func (s *ModelDiscoveryService) incrementFailureCount(endpointURL string) {\n	s.mu.RLock()\n	defer s.mu.RUnlock()\n"})
+}
